@@ -36,23 +36,8 @@ def canon_impl(line):
     return f[0] + " " + f[1] + " " + ";".join(out) + sep + cuts
 
 
-def design_known():
-    """`finding:` lines of design.d/C11.md (the same lines go to known_findings.txt)."""
-    res = []
-    p = os.path.join(ROOT, "design.d", "C11.md")
-    if os.path.exists(p):
-        for line in open(p):
-            m = re.match(r"^\s*`?finding:\s+property=C11\s+name=(\S+)\s+(.*?)`?\s*$", line)
-            if m:
-                rx = re.compile(m.group(1))
-                res.append({"text": m.group(2), "match": (lambda name, text, rx=rx: bool(rx.fullmatch(name)))})
-    return res
-
-
 def main(tier, replay=None):
     c = Check("C11", tier)
-    if not c.known:
-        c.known = design_known()
     if not c.coq_check():
         c.proof_broken_violation()
     driver = c.build_model()
